@@ -138,6 +138,8 @@ def run(cx, rep):
             rep.ob("C15.3", "%s/quoted-keys" % cn, quoted,
                    "%s.describeTypeExpr interpolates property names into the type text unquoted: a property such as \"a-b\" prints `a-b: string`, which is not valid TypeScript" % cn,
                    mod.loc(c), sample={"class": cn, "key_expr": ktxt})
+    rep.rule("C15.5", "describeChildren yields every child validator that describe() descends into")
+    describe_children_rule(cx, rep, fam, mod)
     # ---------------------------------------------------------------- C15.4
     rep.rule("C15.4", "recursion guards and single declaration")
     for cn, c in sorted(fam.classes.items()):
@@ -163,3 +165,53 @@ def run(cx, rep):
             txt = "".join(mod.text(fn).split())
             ok2 = "activeRefs.has(" in txt and "activeRefs.add(" in txt and "activeRefs.delete(" in txt
             rep.ob("C15.4", "%s.describe/recursion-guard" % cn, ok2, "%s.describe must guard the recursive description with activeRefs" % cn, mod.loc(fn))
+
+
+def _runtype_fields(fam, cn):
+    out = set()
+    for fname, (owner, ann) in fam.all_fields(cn).items():
+        if ann is None:
+            continue
+        t = tsast.type_str(ann)
+        if t in ("Runtype", "Runtype[]", "Array<Runtype>", "Runtype|null", "Runtype|undefined") or t.startswith("Record<string,Runtype"):
+            out.add(fname)
+    return out
+
+
+def describe_children_rule(cx, rep, fam, mod):
+    YIELDERS = {"map", "flatMap", "filter", "concat", "values", "entries", "slice"}
+    n = 0
+    for cn, c in sorted(fam.concrete().items()):
+        rfs = _runtype_fields(fam, cn)
+        if not rfs:
+            continue
+        _, dte = fam.resolve_method(cn, "describeTypeExpr")
+        _, dsc = fam.resolve_method(cn, "describe")
+        read = set()
+        for m in (dte, dsc):
+            if m and m["function"].get("body") is not None and (m is dte or cn in ("OptionalFieldRuntype",) or "describe" in fam.classes[cn].methods):
+                read |= {f for f in ts_common.this_fields_read(m["function"]) if f in rfs}
+        _, dch = fam.resolve_method(cn, "describeChildren")
+        if dch is None or not read:
+            continue
+        n += 1
+        fn = dch["function"]
+        yielded = set()
+        for x in walk(fn):
+            if x["type"] == "MemberExpression" and x["object"]["type"] == "ThisExpression" and x["property"].get("value") in rfs:
+                # receiver of a method call that does not yield the field's own elements?
+                recv_of = None
+                for call in walk(fn):
+                    if call["type"] == "CallExpression":
+                        mc = method_call(call)
+                        if mc and unparen(mc[0]) is x:
+                            recv_of = mc[1]
+                if recv_of is None or recv_of in YIELDERS:
+                    yielded.add(x["property"]["value"])
+            if x["type"] == "CallExpression" and s(x["callee"]) in ("Object.values", "Object.entries") and x["arguments"] and s(x["arguments"][0]["expression"]).startswith("this."):
+                yielded.add(s(x["arguments"][0]["expression"])[5:])
+        missing = read - yielded
+        rep.ob("C15.5", cn, not missing,
+               "%s.describeChildren does not yield this.%s although describe() descends into it: references reached only through it are not counted, so shared named types are inlined instead of declared once and recursive ones are described without a cycle guard" % (cn, sorted(missing)),
+               mod.loc(fn), sample={"class": cn, "children_described": sorted(read), "children_yielded": sorted(yielded)})
+    rep.floor("C15.5", "classes with child validators", n, 8)
